@@ -22,6 +22,107 @@ type srcRenderer struct {
 	md rmode
 	// how the API is referred to in coMode: "" for a dot import, "co." etc.
 	api string
+	// names of the key / value variables of the enclosing range loops (innermost last)
+	kv [][2]string
+}
+
+func (sr *srcRenderer) kvName(n string) string {
+	if len(sr.kv) == 0 {
+		return "-7"
+	}
+	top := sr.kv[len(sr.kv)-1]
+	if n == "k" {
+		return top[0]
+	}
+	return top[1]
+}
+
+var rangeColl = map[string][2]string{ // kind -> variable, type
+	"slice": {"s", "[]int"}, "array": {"arr", "[3]int"}, "string": {"str", "string"}, "int": {"n", "int"}, "chan": {"ch", "chan int"},
+}
+
+const rangeProlog = `	s := append(make([]int, 0, 4), 10, 20, 30)
+	arr := [3]int{10, 20, 30}
+	str := "a\u00e9\xffz"
+	n := 3
+	ch := make(chan int, 4)
+	ch <- 10
+	ch <- 20
+	close(ch)
+	kk, vv, rv := -1, -1, rune(-1)
+	_, _, _, _, _, _, _, _ = s, arr, str, n, ch, kk, vv, rv
+`
+
+func (sr *srcRenderer) rangeStmt(m J, ind string) string {
+	in2 := ind + "\t"
+	kind := str(m["kind"])
+	coll := rangeColl[kind]
+	x := coll[0]
+	if m["xf"] == "call" {
+		x = fmt.Sprintf("func() %s { r.X(%d); return %s }()", coll[1], num(m["id"]), coll[0])
+	}
+	name := func(f, def, asg string) (lhs, ref string) {
+		switch f {
+		case "def":
+			return def, def
+		case "asg":
+			return asg, asg
+		case "blank":
+			return "_", "-7"
+		}
+		return "", "-7"
+	}
+	kl, kr := name(str(m["kf"]), "k", "kk")
+	vl, vr := name(str(m["vf"]), "v", "vv")
+	tok := "="
+	if m["kf"] == "def" || m["vf"] == "def" {
+		tok = ":="
+	}
+	hdr := ""
+	switch {
+	case kl == "" && vl == "":
+		hdr = "for range " + x
+	case vl == "":
+		hdr = "for " + kl + " " + tok + " range " + x
+	default:
+		hdr = "for " + kl + ", " + vl + " " + tok + " range " + x
+	}
+	inject := ""
+	if kind == "string" { // the value is a rune: observe it as int; `=` form goes through a rune variable
+		switch m["vf"] {
+		case "def":
+			vr = "int(v)"
+		case "asg":
+			hdr = strings.Replace(hdr, ", vv = range", ", rv = range", 1)
+			inject = in2 + "vv = int(rv)\n"
+		}
+	}
+	sr.kv = append(sr.kv, [2]string{kr, vr})
+	body := inject + sr.block(m["body"], in2)
+	sr.kv = sr.kv[:len(sr.kv)-1]
+	if m["wrap"] == "closure" {
+		return ind + "func() {\n" + ind + "\t" + hdr + " {\n" + indent(body, "\t") + in2 + "}\n" + ind + "}()\n"
+	}
+	return ind + hdr + " {\n" + body + ind + "}\n"
+}
+
+func (sr *srcRenderer) mutStmt(m J) string {
+	j := num(m["j"])
+	switch m["op"] {
+	case "sset":
+		return fmt.Sprintf("if %d < len(s) {\n\ts[%d] = 99\n}", j, j)
+	case "sapp":
+		return "if len(s) < 4 {\n\ts = append(s, 77)\n}"
+	case "strunc":
+		return "s = s[:1]"
+	case "aset":
+		return fmt.Sprintf("arr[%d] = 99", j)
+	case "nset":
+		return "n = 1"
+	case "strset":
+		return `str = "z"`
+	}
+	panic("unknown mutation " + canon(m))
 }
 
 func (sr *srcRenderer) vexpr(v any) string {
@@ -30,6 +131,9 @@ func (sr *srcRenderer) vexpr(v any) string {
 	case "lit":
 		return itoa(num(m["v"]))
 	case "var":
+		if n := str(m["n"]); n == "k" || n == "v" {
+			return sr.kvName(n)
+		}
 		return str(m["n"])
 	case "add":
 		return fmt.Sprintf("%s + %d", str(m["n"]), num(m["d"]))
@@ -70,6 +174,12 @@ func (sr *srcRenderer) simple(s any) string {
 			return sr.api + "YieldFrom(" + call + ")"
 		}
 		return "rt.YF(yield, " + call + ")"
+	case "effkv":
+		return fmt.Sprintf("r.E(%d, %s, %s)", num(m["id"]), sr.kvName("k"), sr.kvName("v"))
+	case "effkk":
+		return fmt.Sprintf("r.E(%d, kk, vv)", num(m["id"]))
+	case "mut":
+		return sr.mutStmt(m)
 	case "setcv":
 		return "cv = func() bool { return false }"
 	case "sets":
@@ -111,8 +221,10 @@ func (sr *srcRenderer) stmt(s any, ind string) string {
 	case "def":
 		n := str(m["n"])
 		return ind + sr.simple(s) + "\n" + ind + "_ = " + n + "\n"
-	case "eff", "inc", "callf", "passign", "panic", "yield", "yfrom", "setcv", "sets":
-		return ind + sr.simple(s) + "\n"
+	case "eff", "inc", "callf", "passign", "panic", "yield", "yfrom", "setcv", "sets", "effkv", "effkk", "mut":
+		return indent(sr.simple(s), ind)
+	case "range":
+		return sr.rangeStmt(m, ind)
 	case "if":
 		hdr := sr.cond(m["c"], m["init"])
 		if !isNone(m["init"]) {
@@ -302,6 +414,9 @@ func (sr *srcRenderer) genFunc(name string, prog []any, trailing string) string 
 	prolog := ""
 	if usesKind(prog, "callf") {
 		prolog += "\tf := func() { a += 100 }\n\t_ = f\n"
+	}
+	if usesKind(prog, "range") || usesKind(prog, "effkk") {
+		prolog += rangeProlog
 	}
 	if sr.md == coMode {
 		body := sr.block(prog, "\t")
